@@ -190,13 +190,13 @@ def lex_k(ck, harness, model, jobs, limit=2):
     return impl, mod, bad
 
 # ---------------------------------------------------------------- the full pipeline model (pump, includes)
-def run_full(harness, model, cases, syms=False, mopts=None):
+def run_full(harness, model, cases, syms=False, mopts=None, case_timeout=None):
     """cases: list of dict(arch, files {abs path: str|bytes}, cwd, root, paths [abs]).
     Returns (impl [AsmResult], model [raw line or 'LEXERR'/'NEEDLEX'], impl case lines)."""
     opts = "syms" if syms else ""
     icases = [asm_case(c["arch"], files=c["files"], cwd=c.get("cwd", "/w"), root=c.get("root", "main.asm"),
                        paths=c.get("paths", ()), opts=opts) for c in cases]
-    impl = [AsmResult(r) for r in run_cases(harness, icases)]
+    impl = [AsmResult(r) for r in run_cases(harness, icases, case_timeout=case_timeout)]
     # lex every file with the implementation's lexer
     lexjobs, where = [], []
     for ci, c in enumerate(cases):
